@@ -1,40 +1,15 @@
-//! Development helper: print the WIT / generated bindings of a small world.
-use e3_rust::{gen, world};
-use refabi::Ty;
+//! Development helper: print the generated bindings of a WIT file (`e3dev <file.wit> [cfg]`).
+use e3_rust::gen;
 
 fn main() {
     let a: Vec<String> = std::env::args().skip(1).collect();
     let cfg = gen::Config::parse(a.get(1).map(|s| s.as_str()).unwrap_or("owning-std-nomerge-btreemap-str")).expect("cfg");
-    let types: Vec<Ty> = match a.get(2).map(|s| s.as_str()) {
-        Some("sample") | None => vec![
-            Ty::U8,
-            Ty::String,
-            Ty::List(Box::new(Ty::String)),
-            Ty::Record(vec![Ty::U8, Ty::String]),
-            Ty::Variant(vec![Some(Ty::F32), Some(Ty::U64), None]),
-            Ty::Flags(33),
-            Ty::Enum(3),
-            Ty::Map(Box::new(Ty::String), Box::new(Ty::U32)),
-            Ty::FixedList(Box::new(Ty::String), 2),
-            Ty::Option(Box::new(Ty::Record(vec![Ty::U8, Ty::String]))),
-            Ty::Tuple(vec![Ty::U8, Ty::List(Box::new(Ty::U8))]),
-            Ty::List(Box::new(Ty::Record(vec![Ty::U8, Ty::String]))),
-            Ty::Result(Some(Box::new(Ty::String)), Some(Box::new(Ty::Enum(3)))),
-            Ty::Tuple(vec![Ty::U64; 9]),
-        ],
-        Some(u) => refabi::universe::universe(u),
-    };
-    let (chunks, _) = world::chunks(&types, 200);
-    let c = &chunks[0];
-    match a.first().map(|s| s.as_str()) {
-        Some("wit") => println!("{}", c.wit),
-        Some("gen") => match gen::generate(&c.wit, &cfg) {
-            Ok(s) => println!("{s}"),
-            Err(e) => {
-                eprintln!("{e}");
-                std::process::exit(1)
-            }
-        },
-        _ => eprintln!("usage: e3dev wit|gen <cfg> <universe|sample>"),
+    let wit = std::fs::read_to_string(&a[0]).expect("wit file");
+    match gen::generate(&wit, &cfg) {
+        Ok(s) => println!("{s}"),
+        Err(e) => {
+            eprintln!("{e}");
+            std::process::exit(1)
+        }
     }
 }
